@@ -89,4 +89,17 @@ PROPS = {
         "assumptions": ["rayon: collect() of a parallel iterator preserves order; for_each on par_iter_mut visits each element once (its documented contract) - exercised under the listed pools, not proved",
                         "the raw-pointer hierarchy tuples of the *_mut variants are read through their public accessors only; aliasing/memory safety is outside an executable Gallina model"],
     },
+    "C18": {
+        "translators": ["t4"],
+        "entries": ["C18", "C18gen"],
+        "count": {"quick": 300, "thorough": 3000},
+        "rule": "every validated field (15: model serial, chain id, residue number, insertion code, conformer name, alternate location, modification, "
+                "atom name, atom serial, charge, occupancy, B factor, x, y, z) at its maximum, one step above, at its minimum, one step below (next "
+                "representable double for the float columns) and inside; 1..3 models with equal shapes and one single-field difference in the second model "
+                "(serial, name, element, charge, tensor presence, position only, hetero flag, atom count), different shapes, empty structure, containers "
+                "without atoms.  validate and validate_pdb diagnostics (level, short description) as sorted multisets compared with the model over the "
+                "documented column ranges (property) and with the model over the regenerated rule table (translator).  non-trivial: every case",
+        "assumptions": ["the binary64 value of each documented decimal bound is supplied by the harness (Rust's parse of the same text)",
+                        "diagnostics are compared as multisets of (level, short description); long descriptions are not compared"],
+    },
 }
